@@ -1,6 +1,6 @@
 import PebblesVerif.Props.C01FlatList
 import PebblesVerif.Props.C06Flat
-import PebblesVerif.Proofs.C02Flat6
+import PebblesVerif.Proofs.C02Flat7
 /-!
 # C02, end to end, for the flat families
 
@@ -26,7 +26,7 @@ selects `T.n`; `C02.IsNodeLookup T sub rq` — `rq` is exactly
 `query($id: ID!) { node(id: $id) { ... on T { sub } } }`; `C02.SubrequestsOK` — the conclusion,
 field by field. The hypotheses about the SERVICE schemas are `Flat.SvcFam` / `Mut.SvcFam`
 (`Proofs/C02Flat2.lean`, `Proofs/C02Flat5.lean`); `Flat.Fam` / `Mut.Fam` speak of the merged
-schema and the routing table only. Proofs: `Proofs/C02Flat1…6.lean`, `Proofs/C02Calls.lean`.
+schema and the routing table only. Proofs: `Proofs/C02Flat1…7.lean`, `Proofs/C02Calls.lean`.
 
 Three layers, from the most general:
 * `C02_requests_are_plan_steps` — ALL operations, ALL plans, ALL downstreams: every request of every
@@ -34,7 +34,7 @@ Three layers, from the most general:
   steps of the plan against the schemas of their services — what the C02 harness does with
   gqlparser on the real planner's plan — covers everything that is ever sent);
 * `C02_flat_every_downstream`, `C02_flat_list_every_downstream`,
-  `C02_flat_mutation_every_downstream` — the flat families, EVERY downstream (wrong answers and
+  `C02_flat_mutation_every_downstream`, `C02_flat_followup_every_downstream` — the flat families, EVERY downstream (wrong answers and
   faults included): every request sent is valid for its service, of the right form, and selects a
   client field iff it goes to the field's owner;
 * `C02_flat_subrequests_valid`, `C02_flat_list_subrequests_valid`,
@@ -267,6 +267,41 @@ theorem C02_flat_mutation_every_downstream {c : PCtx} {ms : List Mut.MSpec} (h :
       rq.header.kind = .mutation ∧ rq.header.varDecls = [] ∧ rq.vars = [] :=
   C02.mut_every_downstream h hs down res hg
 
+/-- **A mutation with an object-valued root field — EVERY downstream.** For every operation
+    `mutation { m₁ … mₙ o { f₁ … fₖ } }` of the family of `C06_flat_followup_is_query` (`MutO.Fam`:
+    n ≥ 0 leaf root fields with their owners; `o : T` routed to `A`, `T` a Node type, each `fⱼ` a
+    leaf routed to `A` or `B`) and service schemas as `MutO.SvcFam` says: whenever the pipeline
+    ends, every request `rq` of every call `cl` it made satisfies `C02.MutORequestOK`: it is
+    `ValidFor` the schema of the service at `cl.url`, and it is EITHER a root request — a `mutation`
+    without variables, which selects a field of `T` only at `A` (below `o`), then exactly `A`'s
+    share, each once — OR, at `B`, a follow-up lookup: the QUERY
+    `query($id: ID!) { node(id: $id) { ... on T { <B's fields> } } }` with `vars = [("id", i)]`,
+    `i` a non-empty string, selecting exactly `B`'s share, each once. (A follow-up sent as a
+    `query` is valid at `B` because `B`'s schema has a query root with `node`; as a `mutation` it
+    would not be: `Mutation` declares no `node`.) -/
+theorem C02_flat_followup_every_downstream {c : PCtx} {ms : List Mut.MSpec} {A B T o : String}
+    {fs : List Flat.FieldSpec} (h : MutO.Fam c ms A B T o fs) (svcs : List Svc)
+    (hs : MutO.SvcFam c ms A B T o fs svcs) (down : Downstream) (res : GwResult)
+    (hg : gateway c {} (MutO.op c ms T o fs) none down = .ok res) :
+    ∀ cl ∈ res.calls, ∀ rq ∈ cl.batch, C02.MutORequestOK svcs A B T fs cl.url rq :=
+  C02.mutO_every_downstream h hs down res hg
+
+/-- **The same with the call list spelled out**, for every downstream whose answers to the
+    expected calls are well-formed (`MutO.Good`, as in `C06_flat_followup_is_query`): the calls are
+    one root request per owning service (`MutO.rootCalls`) followed by — iff `B` owns a selected
+    field of `T` — the ONE lookup for the id `i` found under `o`; every one of them satisfies
+    `C02.MutORequestOK`. -/
+theorem C02_flat_followup_subrequests_valid {c : PCtx} {ms : List Mut.MSpec} {A B T o : String}
+    {fs : List Flat.FieldSpec} (h : MutO.Fam c ms A B T o fs) (svcs : List Svc)
+    (hs : MutO.SvcFam c ms A B T o fs svcs) (down : Downstream) (i : String)
+    (ho1 : '#' ∉ o.toList) (ho2 : ':' ∉ o.toList) (hone : o ≠ "") (hine : i ≠ "")
+    (hg : MutO.Good c ms A B T o fs down i) :
+    ∃ d calls, gateway c {} (MutO.op c ms T o fs) none down = .ok ⟨some d, [], calls⟩ ∧
+      calls = MutO.rootCalls c ms A B T o fs ++ MutO.followUps c B T o fs i ∧
+      ∀ cl ∈ calls, ∀ rq ∈ cl.batch, C02.MutORequestOK svcs A B T fs cl.url rq := by
+  obtain ⟨d, hgw⟩ := MutO.stage_gateway h down i ho1 ho2 hone hine hg
+  exact ⟨d, _, hgw, rfl, C02.mutO_every_downstream h hs down _ hgw⟩
+
 /-! ## instances -/
 
 namespace C02.Example
@@ -362,6 +397,57 @@ theorem msvcFam : Mut.SvcFam Mut.Example.ctx Mut.Example.ms msvcs where
     (urls_cases (fun hne => absurd rfl hne) (fun _ => by rfl))
     (urls_cases (fun _ => by rfl) (fun hne => absurd rfl hne))
 
+/-! the federation of `MutO.Example` (`m1`, `createAnimal`, `Animal.name`, `Animal.sound` at `A`;
+    `m2`, `Animal.age` at `B`), service by service -/
+def oschemaA : Schema :=
+  { types := [animalA, mutationT [⟨"m1", [], MutO.Example.tInt, none, "", []⟩,
+                                  ⟨"createAnimal", [], .named "Animal", none, "", []⟩]],
+    mutation := some "Mutation" }
+def oschemaB : Schema :=
+  { types := [animalB, mutationT [⟨"m2", [], MutO.Example.tInt, none, "", []⟩], nodeT, queryB],
+    possible := [("Node", ["Animal"])], query := some "Query", mutation := some "Mutation" }
+def osvcs : List Svc := [⟨"A", oschemaA⟩, ⟨"B", oschemaB⟩]
+
+theorem ofs_cases {P : FieldSpec → Prop} (h1 : P ("age", tStr, true)) (h2 : P ("name", tStr, false))
+    (h3 : P ("sound", tStr, false)) : ∀ f ∈ MutO.Example.fs, P f := by
+  intro f hf
+  simp only [MutO.Example.fs, List.mem_cons, List.not_mem_nil, or_false] at hf
+  rcases hf with rfl | rfl | rfl <;> assumption
+
+theorem ourls_cases {P : String → Prop} (hB : P "B") (hA : P "A") :
+    ∀ u ∈ MutO.urlsOf MutO.Example.ctx MutO.Example.ms "A" "Animal" "createAnimal" MutO.Example.fs, P u := by
+  intro u hu
+  rw [MutO.Example.urls_eq] at hu
+  simp only [List.mem_cons, List.not_mem_nil, or_false] at hu
+  rcases hu with rfl | rfl <;> assumption
+
+theorem osvcFam : MutO.SvcFam MutO.Example.ctx MutO.Example.ms "A" "B" "Animal" "createAnimal" MutO.Example.fs osvcs where
+  rootM := ourls_cases rfl rfl
+  kM := ourls_cases (by rfl) (by rfl)
+  own := by
+    intro f hf
+    simp only [MutO.Example.ms, List.mem_cons, List.not_mem_nil, or_false] at hf
+    rcases hf with rfl | rfl
+    · exact ⟨_, by rfl, rfl, by rfl⟩
+    · exact ⟨_, by rfl, rfl, by rfl⟩
+  oA := ⟨_, by rfl, rfl, rfl⟩
+  tA :=
+    { kTA := by rfl
+      idA := ⟨idF, by rfl, rfl, by rfl⟩
+      fsA := ofs_cases (by intro hb; cases hb) (fun _ => ⟨_, by rfl, rfl, by rfl⟩) (fun _ => ⟨_, by rfl, rfl, by rfl⟩)
+      onlyA := ofs_cases (fun _ => by rfl) (by intro hb; cases hb) (by intro hb; cases hb) }
+  tB := fun _ =>
+    { hTne := by decide
+      rootB := rfl
+      kQB := by rfl
+      nodeB := ⟨_, _, by rfl, rfl, rfl, rfl, rfl⟩
+      kNodeB := by rfl
+      kTB := by rfl
+      implB := ⟨_, by rfl, by rfl⟩
+      idB := ⟨_, by rfl, rfl, by rfl⟩
+      fsB := ofs_cases (fun _ => ⟨_, by rfl, rfl, by rfl⟩) (by intro hb; cases hb) (by intro hb; cases hb)
+      onlyB := ofs_cases (by intro hb; cases hb) (fun _ => by rfl) (fun _ => by rfl) }
+
 end C02.Example
 
 section Instances
@@ -435,6 +521,21 @@ theorem C02_flat_mutation_subrequests_valid_instance :
         rq.header.kind = .mutation ∧ rq.header.varDecls = [] ∧ rq.vars = [] :=
   C02_flat_mutation_subrequests_valid Mut.Example.fam msvcs msvcFam Mut.Example.downEmpty Mut.Example.downEmpty_answers
 
+/-- non-vacuity of `C02_flat_followup_subrequests_valid` (hence of `C02_flat_followup_every_downstream`):
+    `mutation { m1 m2 createAnimal { age name sound } }` against the downstream of
+    `C06_flat_followup_is_query_instance`; the three calls — `B` `mutation { m2 }`, `A`
+    `mutation { m1 createAnimal { id name sound } }`, `B` `query($id: ID!) { node(id: $id) {…} }` —
+    are all valid for the service called -/
+theorem C02_flat_followup_subrequests_valid_instance :
+    ∃ d calls, gateway MutO.Example.ctx {} MutO.Example.opEx none MutO.Example.down = .ok ⟨some d, [], calls⟩ ∧
+      MutO.Example.summary calls
+        = [("B", [(.mutation, ["m2"])]), ("A", [(.mutation, ["m1", "createAnimal"])]), ("B", [(.query, ["node"])])] ∧
+      ∀ cl ∈ calls, ∀ rq ∈ cl.batch, C02.MutORequestOK osvcs "A" "B" "Animal" MutO.Example.fs cl.url rq := by
+  obtain ⟨d, calls, hgw, hcalls, hok⟩ := C02_flat_followup_subrequests_valid MutO.Example.fam osvcs osvcFam
+    MutO.Example.down "a#1" (by decide) (by decide) (by decide) (by decide) MutO.Example.good
+  subst hcalls
+  exact ⟨d, _, hgw, by decide, hok⟩
+
 /-- non-vacuity of `C02_flat_every_downstream` / `C02_flat_list_every_downstream`: the example
     federations meet `Flat.Fam` and `Flat.SvcFam`; the remaining hypothesis (the pipeline ends) holds
     e.g. for the reference services (`C02_flat_subrequests_valid_instance`, two calls) and is
@@ -481,6 +582,8 @@ def downOdd : Downstream := fun url batch =>
   == some (true, [("A", 1), ("B", 2)])
 #guard allValid msvcs (gateway Mut.Example.ctx {} (Mut.op Mut.Example.ctx Mut.Example.ms) none Mut.Example.downEmpty)
   == some (true, [("B", 1), ("A", 1)])
+#guard allValid osvcs (gateway MutO.Example.ctx {} MutO.Example.opEx none MutO.Example.down)
+  == some (true, [("B", 1), ("A", 1), ("B", 1)])
 -- services that answer something else entirely: the requests sent are still valid
 #guard allValid svcsL (gateway FlatList.Example.ctx {} FlatList.Example.op none downOdd)
   == some (true, [("A", 1), ("B", 2)])
